@@ -20,6 +20,7 @@
 import copy
 import json
 import os
+import shutil
 from concurrent.futures import ThreadPoolExecutor
 
 from harness.core import (MachineryError, model_check, read_events, require, run_driver, seed, spec_mutant, tlc,
@@ -108,9 +109,22 @@ def set_budget(path, budget):
     return evs
 
 
+def _sweep(parent):
+    """remove the per-process scratch directories of runs whose process is gone"""
+    for d in parent.glob("r*_[0-9]*"):
+        try:
+            pid = int(d.name.rsplit("_", 1)[1])
+            os.kill(pid, 0)
+        except (ValueError, PermissionError):
+            continue
+        except ProcessLookupError:
+            shutil.rmtree(d, ignore_errors=True)
+
+
 def run(rep, tier):
     quick = tier == "quick"
     wd = work_dir("X06", "run_%d" % os.getpid(), clean=True)
+    _sweep(wd.parent)
     scratch = wd / "scratch"
     scratch.mkdir(parents=True, exist_ok=True)
     budget = 8000 if quick else 60000
@@ -164,9 +178,9 @@ def run(rep, tier):
     nsteps = sum(len(b["steps"]) for b in behs)
     rep.notes["vectors"] = {"systems": nsys, "behaviours": len(behs), "behaviour_steps": nsteps}
     require(nsys >= (40 if quick else 200) and len(behs) >= nsim // 2 and nsteps >= nsim, "X06: too few vectors (%d systems, %d behaviours)" % (nsys, len(behs)))
-    max_goals = 260 if quick else 5000
+    max_goals = 220 if quick else 5000
     f_rep = pool.submit(run_driver, "x06", ["replay", vec, beh, wd / "rep.ndjson", seed(), max_goals, tid_rep, scratch], timeout=6000)
-    f_rnd = pool.submit(run_driver, "x06", ["random", wd / "rnd.ndjson", seed(), 10 if quick else 80, tid_rnd, scratch], timeout=6000)
+    f_rnd = pool.submit(run_driver, "x06", ["random", wd / "rnd.ndjson", seed(), 8 if quick else 80, tid_rnd, scratch], timeout=6000)
     f_ex.result()
     f_rep.result()
     f_rnd.result()
